@@ -103,3 +103,6 @@ def run(chk):
         # ------------------------------------------------------------------ T + ASan
         from checks import c06_trace
         c06_trace.run(chk, sc)
+        # one history of millions of trashes (whatever the implementation does rarely has happened), windows judged by TLC
+        from checks import longsched
+        longsched.run(chk, sc, "C06")
